@@ -74,6 +74,12 @@ inductive DumpOp where
   | unknown (what : String)
 deriving DecidableEq, Repr
 
+/-- own `from_dict`: the classmethod `return cls(**d)` (basedevice.py:216-219), or anything else. -/
+inductive FromDict where
+  | ctorOfDict
+  | other (what : String)
+deriving DecidableEq, Repr
+
 structure ClassInfo where
   name : String
   /-- `cls.__mro__[1:]` without `object` / `ABC`, nearest first -/
@@ -83,6 +89,8 @@ structure ClassInfo where
   init : Option InitInfo
   /-- own `to_dict` (AST), `none` when inherited -/
   dump : Option (List DumpOp)
+  /-- own `from_dict` (AST), `none` when inherited -/
+  fromDict : Option FromDict
   /-- own `@property` names -/
   props : List String
   /-- own `@x.setter` names -/
@@ -280,9 +288,17 @@ def fromDictBinds (tbl : Table) (c : ClassInfo) : Bool :=
     | some ks => callOk tbl c ks && dumped tbl c ks == some ks
     | none => false)
 
+/-- `cls.from_dict(d)` IS `cls(**d)`: the first `from_dict` along the MRO is the plain classmethod — nothing is
+dropped from, added to, reordered in or edited in the dictionary on its way to the constructor.  (The table theorems
+above describe `cls(**dump)`; this is what makes them statements about `from_dict(dump)`.) -/
+def fromDictIsCtor (tbl : Table) (c : ClassInfo) : Bool :=
+  match (mro tbl c).find? (fun b => b.fromDict.isSome) with
+  | some b => b.fromDict == some .ctorOfDict
+  | none => false
+
 def tableOk (tbl : Table) : Bool :=
   (concrete tbl).all (fun c => mroResolved tbl c && sigAgrees tbl c && dumpDefined tbl c && dumpedKeysAccepted tbl c
-    && requiredDumped tbl c && dumpCoversCtor tbl c && fromDictBinds tbl c)
+    && requiredDumped tbl c && dumpCoversCtor tbl c && fromDictBinds tbl c && fromDictIsCtor tbl c)
 
 /-- keys `to_dict()` dumps for the class called `name` constructed with every named argument plus
 the extra `**kwargs` keys `extra` (T2 and the model bridge use this). -/
